@@ -438,7 +438,7 @@ class QGen:
                 v = self.var("s")
                 rhs = f"{s2}.Where(lambda {w}: {w}.{r.choice(DOUBLE_METHODS)}() > {cut}).Select(lambda {v}: {v}.{r.choice(DOUBLE_METHODS)}()).Sum()"
             return f"({s1}.Count() {r.choice(['+', '-', '*'])} {rhs})", "double"
-        if depth > 0 and r.random() < 0.10:
+        if depth > 0 and r.random() < 0.12:
             # the idiomatic guarded First: the condition protects the First() of the same sequence
             s_, et = self.seq_of_obj(evar, 0, allow_where=r.random() < 0.3)
             c0 = r.choice(["-1000.0", "0.0", "-1.0"])
